@@ -184,6 +184,9 @@ func Transform(pkgs []*packages.Package, excluded func(filename string) bool) *R
 		}
 	}
 	sort.Strings(in.res.New)
+	if len(in.callees) > 0 {
+		in.normalizeCallShapes(pkgs, excluded)
+	}
 	if len(in.callees) == 0 && len(in.dirty) == 0 && len(in.closures) == 0 {
 		return in.res
 	}
